@@ -81,6 +81,13 @@ def run(ctx: Ctx) -> dict:
             if o["cls"] != "str" and rng.random() < 0.35:
                 o["via"] = [rng.choice(COPY_OPS) for _ in range(rng.choice((1, 1, 2)))]
         ops.append({"op": "values", "kind": rng.choice(KINDS), "a": a, "b": b})
+    # pickling in its ordinary use: hashed here, unpickled in another interpreter with another hash salt
+    objs = [o for o in pop if o["cls"] != "str"]
+    for n in range(24 if ctx.quick else 400):
+        a, b = dict(rng.choice(objs)), dict(rng.choice(objs))
+        if n % 3 == 0:
+            a["via"] = [rng.choice(COPY_OPS)]
+        ops.append({"op": "values", "kind": "xproc", "a": a, "b": b, "protocol": n % 6, "salt": 1000 + n})
     events = calls.execute(ctx, ops, "c16")
     mism = calls.validate(ctx, "TraceValues", events, {}, "c16", per_shard=6000)
     calls.report(ctx, mism, None, keyfn)
